@@ -166,6 +166,14 @@ func init() {
 		var cell value = priv
 		return tuple{&cell, iface{}}
 	}
+	// crypto/ecdh's check that the bytes of a public key are a point of the
+	// curve (nistec arithmetic) is "on the curve", like IsOnCurve below
+	stubMatchers = append(stubMatchers, func(name string) handler {
+		if strings.HasPrefix(name, "(*crypto/internal/nistec.P") && strings.HasSuffix(name, "Point).SetBytes") {
+			return func(fr *frame, args []value) value { return tuple{args[0], iface{}} }
+		}
+		return nil
+	})
 	// curve methods: arithmetic is not interpreted
 	stubMatchers = append(stubMatchers, func(name string) handler {
 		isCurve := strings.Contains(name, "crypto/elliptic.nistCurve[") || strings.HasPrefix(name, "(*crypto/elliptic.CurveParams).") ||
